@@ -629,6 +629,61 @@ func init() {
 			c16Unclosed, c16AsCollection = false, c.rng.Intn(4) == 0
 			c16Smart(c, []string{"MultiPolygon", "Geometry", "Polygon", "MultiPolygon"}[c.rng.Intn(4)], [4]int{120, 120, 360, 360}, [][][][2]int{poly}, o)
 		}
+		// (3c) members of several kinds in one multi-polygon: one that crosses a side of the box and has a hole crossing the
+		// same side, and two or three small ones wholly inside the box, with and without holes, in any order - what is kept
+		// of one member is not written over by what is attached to another
+		for i := 0; i < c.pick(300, 6000); i++ {
+			rect := func(x0, y0, x1, y1 int) [][2]int { return [][2]int{{x0, y0}, {x1, y0}, {x1, y1}, {x0, y1}} }
+			// figure space in units of 1/60: box (2,2)-(6,6); the crossing member reaches in over the left side
+			type member struct{ outer, hole [][2]int }
+			ms := []member{
+				{rect(0, 150, 180, 210), rect(60, 165, 150, 195)},    // crosses x = 2, so does its hole
+				{rect(210, 150, 270, 210), rect(225, 165, 255, 195)}, // inside, with a hole
+				{rect(210, 240, 270, 300), rect(225, 255, 255, 285)}, // inside, with a hole
+				{rect(300, 150, 330, 180), nil},                      // inside, plain
+			}
+			if c.rng.Intn(3) == 0 {
+				ms[0].hole = nil
+			}
+			if c.rng.Intn(3) == 0 {
+				ms[2].hole = nil
+			}
+			if c.rng.Intn(2) == 0 {
+				ms = ms[:3]
+			}
+			c.rng.Shuffle(len(ms), func(a, b int) { ms[a], ms[b] = ms[b], ms[a] })
+			rot := c.rng.Intn(4)
+			turn := func(p [2]int) [2]int {
+				x, y := p[0]-240, p[1]-240
+				switch rot {
+				case 1:
+					x, y = -y, x
+				case 2:
+					x, y = -x, -y
+				case 3:
+					x, y = y, -x
+				}
+				return [2]int{x + 240, y + 240}
+			}
+			o := 1 - 2*c.rng.Intn(2)
+			var in [][][][2]int
+			for _, m := range ms {
+				tr := func(r [][2]int) [][2]int {
+					var out [][2]int
+					for _, p := range r {
+						out = append(out, turn(p))
+					}
+					return out
+				}
+				poly := [][][2]int{closed(orient(tr(m.outer), o))}
+				if m.hole != nil {
+					poly = append(poly, closed(orient(tr(m.hole), -o)))
+				}
+				in = append(in, poly)
+			}
+			c16Unclosed, c16AsCollection = false, c.rng.Intn(4) == 0
+			c16Smart(c, []string{"MultiPolygon", "Geometry"}[c.rng.Intn(2)], [4]int{120, 120, 360, 360}, in, o)
+		}
 		// (4) combs at mixed scales: a rectangle around the box with one or two slits cut into it from one side, the slits
 		// ending inside the box or running right through it. All edges are parallel to the axes, so the figure is handed
 		// over through per-axis tables (c16Axes): the box from -2 to 3 and -1 to 2, and the two walls of a slit a few
